@@ -240,7 +240,7 @@ def _write_evidence(module, prop, tier, seed, stats, wall, nviol, nshards, regre
         "wall_s": round(wall, 2),
         "violations": nviol,
     }
-    d = os.path.join(VERIF_DIR, "evidence")
+    d = os.environ.get("VERIF_EVIDENCE_DIR") or os.path.join(VERIF_DIR, "evidence")
     os.makedirs(d, exist_ok=True)
     with open(os.path.join(d, f"{prop}.json"), "w") as f:
         json.dump(ev, f, indent=1, sort_keys=True)
